@@ -33,13 +33,14 @@ def cell_to_bv8(c):
 
 class BT:
     """byte-sequence term"""
-    __slots__ = ("length", "cells", "fn", "maxlen")
+    __slots__ = ("length", "cells", "fn", "maxlen", "_memo")
 
     def __init__(self, length, cells=None, fn=None, maxlen=None):
         self.length = length
         self.cells = cells
         self.fn = fn
         self.maxlen = maxlen
+        self._memo = None
         if cells is not None:
             self.length = len(cells)
             self.maxlen = len(cells)
@@ -61,7 +62,16 @@ class BT:
             for k in range(n - 2, -1, -1):
                 res = i_ite(cmp("==", i, k), self.cells[k], res)
             return res
-        return self.fn(i)
+        # lazy term: memoise per index (terms are immutable), keyed by value / z3 ast id
+        key = i if is_conc(i) else ("z", bv(i).get_id())
+        m = self._memo
+        if m is None:
+            m = self._memo = {}
+        elif key in m:
+            return m[key][1]
+        v = self.fn(i)
+        m[key] = (i, v)   # keep i alive so the ast id cannot be reused
+        return v
 
 
 def from_cells(cells):
